@@ -27,7 +27,7 @@ func ownFlags(d string) []string {
 		"col", "col.null", "col.def", "col.big", "enum", "enum.v3", "pk2",
 	}
 	if d == "postgres" {
-		return append(common, "arr.col", "arr", "e2", "serial", "bigserial", "ident", "ident2", "uqc", "idx.where", "idx.hash", "scmt", "scmt2", "enumcol.def", "enum.noschema", "enum.noobj")
+		return append(common, "arr.col", "arr", "e2", "serial", "bigserial", "serial.seq", "ident", "ident2", "uqc", "idx.where", "idx.hash", "scmt", "scmt2", "enumcol.def", "enum.noschema", "enum.noobj")
 	}
 	return append(common, "engine", "tcs", "autoinc", "scs", "idx.prefix", "col.cs")
 }
@@ -166,11 +166,17 @@ func ownSchema(d, name, sfx string, f flagSet, empty bool) *schema.Schema {
 	}
 	if pg {
 		aSeq := schema.NewColumn("c_seq")
+		// serial.seq: the serial type as an INSPECTION reports it, with the name of its sequence (a
+		// non-default one: the default name is derived from table and column).
+		seq := ""
+		if f["serial.seq"] {
+			seq = "q_a_seq" + sfx
+		}
 		switch {
 		case f["bigserial"]:
-			aSeq.SetType(&postgres.SerialType{T: "bigserial"})
+			aSeq.SetType(&postgres.SerialType{T: "bigserial", SequenceName: seq})
 		case f["serial"]:
-			aSeq.SetType(&postgres.SerialType{T: "serial"})
+			aSeq.SetType(&postgres.SerialType{T: "serial", SequenceName: seq})
 		default:
 			aSeq.SetType(&schema.IntegerType{T: "integer"})
 		}
